@@ -340,6 +340,68 @@ func splitArgs(s string) []string {
 	return strings.Split(s, " , ")
 }
 
+// prepared: a call whose arguments have been built once, so that several goroutines can issue the very same call (same
+// receiver instance, same argument values) at the same time
+type prepared struct {
+	m     reflect.Method
+	found bool
+	args  []reflect.Value
+	bad   bool
+}
+
+func prepare(r *recvBox, call string) (p prepared) {
+	fields := strings.SplitN(strings.TrimSpace(call), " ", 2)
+	p.m, p.found = r.ptr().Type().MethodByName(fields[0])
+	if !p.found {
+		return
+	}
+	var toks []string
+	if len(fields) > 1 {
+		toks = splitArgs(fields[1])
+	}
+	defer func() {
+		if rec := recover(); rec != nil {
+			p.bad = true
+		}
+	}()
+	mt := p.m.Type
+	k := 0
+	for i := 1; i < mt.NumIn(); i++ {
+		if mt.IsVariadic() && i == mt.NumIn()-1 {
+			for ; k < len(toks); k++ {
+				p.args = append(p.args, parseArg(toks[k], mt.In(i).Elem()))
+			}
+			break
+		}
+		p.args = append(p.args, parseArg(toks[k], mt.In(i)))
+		k++
+	}
+	return
+}
+
+func invokePrepared(r *recvBox, p prepared) (res string, ok bool) {
+	if !p.found {
+		return "NOMETHOD", false
+	}
+	if p.bad {
+		return "PANIC", false
+	}
+	defer func() {
+		if rec := recover(); rec != nil {
+			res, ok = "PANIC", false
+		}
+	}()
+	out := p.m.Func.Call(append([]reflect.Value{r.ptr()}, p.args...))
+	var rs []string
+	for _, o := range out {
+		rs = append(rs, resTok(o))
+	}
+	if len(rs) == 0 {
+		return "-", true
+	}
+	return strings.Join(rs, ","), true
+}
+
 func invoke(r *recvBox, call string) (res string, ok bool) {
 	fields := strings.SplitN(strings.TrimSpace(call), " ", 2)
 	name := fields[0]
@@ -545,6 +607,32 @@ func genSweepRecv(r *rand.Rand) (string, string) {
 		sprinklePolicies(r, &st)
 	}
 	if r.Intn(3) == 0 {
+		// a fragmented instance: nil slots at either end and between the elements, at the top and one level down
+		// (a query that skips over them must not tidy them up)
+		holes := func(xs []V) []V {
+			var out []V
+			if r.Intn(2) == 0 {
+				out = append(out, V{T: 'N'})
+			}
+			for _, x := range xs {
+				out = append(out, x)
+				if r.Intn(3) == 0 {
+					out = append(out, V{T: 'N'})
+				}
+			}
+			if r.Intn(2) == 0 {
+				out = append(out, V{T: 'N'})
+			}
+			return out
+		}
+		st.Xs = holes(st.Xs)
+		for i := range st.Xs {
+			if st.Xs[i].T == 'K' && r.Intn(2) == 0 {
+				st.Xs[i].Xs = holes(st.Xs[i].Xs)
+			}
+		}
+	}
+	if r.Intn(3) == 0 {
 		st.Cfg.Cap = len(st.Xs) + r.Intn(3) + 1
 	}
 	if r.Intn(3) == 0 {
@@ -637,9 +725,33 @@ func genQueries(r *rand.Rand, id string, tier string) string {
 			qs = append(qs, n)
 		}
 	}
+	// the queries the property names, half of the time
+	named := []string{"String", "Index", "Front", "Back", "Traverse", "Len", "Cap", "Avail", "Kind", "Valid", "IsEqual", "IsEqual", "Unmarshal", "Less", "IsNesting", "CanNest"}
+	if kind == "cond" {
+		named = []string{"String", "Valid", "IsEqual", "IsEqual", "Unmarshal", "Len", "IsNesting", "CanNest", "Keyword", "Operator", "Expression"}
+	}
 	var calls []string
 	for i, n := 0, 1+r.Intn(5); i < n; i++ {
-		calls = append(calls, genCall(r, kind, qs[r.Intn(len(qs))]))
+		name := qs[r.Intn(len(qs))]
+		if r.Intn(2) == 0 {
+			name = named[r.Intn(len(named))]
+		}
+		if name == "IsEqual" && r.Intn(4) != 0 {
+			// against an independently built equal copy, or against a copy that differs somewhere (the answer is an error then,
+			// for every goroutine that asks)
+			v, _ := parseV(strings.Fields(recv))
+			v.Cfg.Opt &^= fRO
+			arg := v
+			if r.Intn(3) != 0 {
+				func() {
+					defer func() { recover() }()
+					arg, _ = mutate(r, v)
+				}()
+			}
+			calls = append(calls, "IsEqual "+arg.String())
+			continue
+		}
+		calls = append(calls, genCall(r, kind, name))
 	}
 	return "queries | " + recv + " | " + strings.Join(calls, " ; ")
 }
